@@ -132,7 +132,7 @@ Definition enc_step (self : encoder) (e : env) (t : ty) (v : value) (sep : text)
     match v with
     | VEnum nm =>
       if existsb (String.eqb nm) (enum_names root ext) then Ok (s2t nm)
-      else Err (EForeign "KeyError")
+      else Err EEncode
     | _ => Err EUnmodelled
     end
   | TBits _ _ => match v with VBits bs nb => enc_bits bs nb | _ => Err EUnmodelled end
